@@ -170,6 +170,25 @@ func runPlans(w *out.W, tier, outDir string) {
 			variants(w, tmp, fmt.Sprintf("y%d-%d", si, ci), s.d, p, class, fmt.Sprintf("synthetic=%s comment=%q", s.label, cm), si+ci, true, nil, s.label)
 		}
 	}
+	// 3b. bufio.Scanner's 64 KiB line limit in the Goose/DBMate readers: one-line commands around the
+	// limit (only these two formats: the extracted scanner is quadratic in the statement length)
+	for li, n := range []int{65534, 65535, 65536, 66000} {
+		body := strings.Repeat("x", n-len("INSERT INTO t VALUES ('');"))
+		p := &migrate.Plan{Changes: []*migrate.Change{
+			{Cmd: "CREATE TABLE t (a text)", Comment: "create t"},
+			{Cmd: "INSERT INTO t VALUES ('" + body + "')"},
+			{Cmd: "CREATE TABLE u (a int)", Comment: "create u"},
+		}}
+		for _, fi := range []int{2, 5} {
+			q := clonePlan(p)
+			q.Name = "n"
+			// oracle only: the extracted model is quadratic on 64 KiB strings (List.rev, the scanner);
+			// the limit itself is tied in the readers stage on files whose long line is cut off
+			c := &planCase{id: fmt.Sprintf("l%d-f%d", li, fi), d: dialects[1], fm: formats[fi], plan: q, class: "rt:long-line", noModel: true,
+				desc: fmt.Sprintf("dialect=postgres format=%s delim=default one-line command of %d bytes", formats[fi].name, n)}
+			runPlanCase(w, tmp, c)
+		}
+	}
 	// 4. the empty plan and one-change plans (template edge cases)
 	for di, d := range dialects {
 		variants(w, tmp, fmt.Sprintf("e%d", di), d, &migrate.Plan{}, "rt:empty-plan", "empty plan", di, true, nil, "")
